@@ -8,6 +8,7 @@
  RF7c-gen   generation-counter scratch table (strops.c table/cycle): generation 0 means `never marked', so the
             counter may only be incremented under a wrap guard and only be reset to a non-zero value together with
             clearing the table.
+ RF7c-key   the name registry of opened zones (alist) reports a hit only for the whole name
  RF8        per-item loops of the tools (stdin lines / argument list): every variable that lives across iterations
             and is modified inside is a counter, a sticky status, or is (re)defined before any use in each iteration.
 """
@@ -375,7 +376,65 @@ def _def_before_use(fn, lp, did, uses):
     return True
 
 
+def check_registry_key(P, R):
+    """the registry of opened zones / maps (src/alist.c) is keyed by name: a hit must mean the whole name is equal.  With a prefix
+    match, `EST5EDT` asked after `EST` gets EST's handle: the answer depends on what was opened before"""
+    rule = "RF7c-key"
+    tu = P.tu("libdutio_a-alist.o")
+    fn = tu.func("__assoc")
+    if fn is None:
+        raise AnalysisBroken("__assoc vanished")
+    R.saw(fn)
+    key = fn.params[1]["d"]
+    hits = [r for r in fn.walk() if r.get("k") == "ReturnStmt" and kids(r) and const_of(kids(r)[0]) != 0]
+    if not hits:
+        raise AnalysisBroken("%s: hit return of __assoc not recognised" % rule)
+    # cursor variables: the one that walks the key
+    keycur = {key}
+    for x in fn.walk():
+        if x.get("k") == "BinaryOperator" and x.get("op") == "=":
+            l, r = strip(x["c"][0]), strip(x["c"][1])
+            if l is not None and r is not None and l.get("k") == "DeclRefExpr" and r.get("k") == "DeclRefExpr" and r.get("d") in keycur:
+                keycur.add(l["d"])
+        if x.get("k") == "Var" and kids(x):
+            r = strip(kids(x)[0])
+            if r is not None and r.get("k") == "DeclRefExpr" and r.get("d") in keycur:
+                keycur.add(x["d"])
+
+    def deref_of(e):
+        e = strip(e)
+        if e is not None and e.get("k") == "UnaryOperator" and e.get("op") == "*":
+            b = strip(e["c"][0])
+            if b is not None and b.get("k") == "DeclRefExpr":
+                return b["d"]
+        return None
+    for r in hits:
+        full = False
+        nul = set()
+        for g in guards_of(fn, r):
+            if "pol" not in g:
+                continue
+            c, pol = strip(g["cond"]), g["pol"]
+            while c is not None and c.get("k") == "UnaryOperator" and c.get("op") == "!":
+                pol = not pol
+                c = strip(c["c"][0])
+            if c is not None and c.get("k") == "BinaryOperator" and c.get("op") in ("==", "!="):
+                a, b = deref_of(c["c"][0]), deref_of(c["c"][1])
+                if a is not None and b is not None and (a in keycur) != (b in keycur) and ((c["op"] == "==") == pol):
+                    full = True
+            d = deref_of(c) if c is not None else None
+            if d is not None and not pol:
+                nul.add(d in keycur)
+        if full or nul == {True, False}:
+            R.ob(rule, "__assoc: a hit requires the stored name and the key to end together", True)
+        else:
+            R.finding(rule, fn, "hit condition", "__assoc returns a hit without comparing the byte where the stored name ends with the key's "
+                      "byte there: a stored name that is a prefix of the key matches, so a zone asked for after a zone whose name is a "
+                      "prefix of its own gets the earlier zone's handle", r)
+
+
 def check(P, R, tier):
+    check_registry_key(P, R)
     check_inventory(P, R)
     check_cache(P, R)
     check_generation(P, R)
